@@ -78,7 +78,12 @@ def ops : List (String × Handler) := [
       let names ← jStrList (← arg j "names")
       let contents ← jList (jOpt jStrList) (← arg j "files")
       let fs : String → Option (List String) := fun n => ((names.zip contents).lookup n).join
-      pure (ofList ofStr (mergeFiles fs names (← jBool (← arg j "copy_header"))))),
+      pure (ofList ofStr (mergeFiles fs names (← jBool (← arg j "copy_header")) (← jNat (← arg j "header_lines"))))),
+  ("merge_files_orig", fun j => do
+      let names ← jStrList (← arg j "names")
+      let contents ← jList (jOpt jStrList) (← arg j "files")
+      let fs : String → Option (List String) := fun n => ((names.zip contents).lookup n).join
+      pure (ofList ofStr (mergeFilesOrig fs names (← jBool (← arg j "copy_header"))))),
   ("part_name", fun j => do
       pure (ofStr (partName (← jStr (← arg j "pre")) (← jStr (← arg j "label")) (← jStr (← arg j "suf")) (← jStr (← arg j "chr"))))),
   -- the two pools of one sample under given schedules; per task the worker state before / after
